@@ -88,7 +88,8 @@ type senderMachine struct {
 	epochStart       int64 // cubic attribution: model time of the first congestion-avoidance ACK of the epoch (0: none)
 	epochMinRTT      time.Duration
 
-	iv intervalChecker
+	iv       intervalChecker
+	reported map[string]bool // known findings already counted for this history
 
 	// bookkeeping
 	ackSS, ackRec, ackCA      bool
@@ -104,7 +105,7 @@ type senderMachine struct {
 func newSenderMachine(unit string) func(SParams) vf.Machine[SOp] {
 	return func(p SParams) vf.Machine[SOp] {
 		m := &senderMachine{u: vf.U(unit), p: p, now: p.Start, mds: p.MDS, pmds: pacerInitialMDS,
-			largestAcked: -1, largestSentAE: -1, marker: -1}
+			largestAcked: -1, largestSentAE: -1, marker: -1, reported: map[string]bool{}}
 		m.rtt = utils.NewRTTStats()
 		m.rtt.SetMaxAckDelay(25 * time.Millisecond)
 		if p.InitRTT > 0 {
@@ -138,8 +139,11 @@ func (m *senderMachine) describe() string {
 // call site leaves the model consistent in that case), so that the search goes on past shallow known defects.
 func (m *senderMachine) tolerated(v *vf.Verdict) bool {
 	if v != nil && m.known(v.Sig) {
-		m.u.Report(v, nil)
-		m.u.Class("known:" + v.Sig)
+		if !m.reported[v.Sig] { // count histories, not calls
+			m.reported[v.Sig] = true
+			m.u.Report(v, nil)
+			m.u.Class("known:" + v.Sig)
+		}
 		return true
 	}
 	return false
@@ -371,6 +375,9 @@ func (m *senderMachine) applySend(op SOp) *vf.Verdict {
 			}
 			if t < 0 {
 				break // known finding: the call panicked, the connection would have died here
+			}
+			if uint64(m.s.BandwidthEstimate())/8*5/4 == 0 {
+				break // zero bandwidth: the bucket never refills, no deadline is "right" (the call must not panic)
 			}
 			if t != 0 && t < m.lastSend {
 				return vf.Bad(sigTUSBeforeSend, "TimeUntilSend %d lies before the last send at %d", t, m.lastSend)
